@@ -83,6 +83,11 @@ def run(ctx, rep):
     prog = ctx.prog
     rep.rule("C02.f", "used-blob bookkeeping: blobs are struck off the still-needed set only for packs that stay available")
     used_bookkeeping_rule(ctx, rep, "C02.f")
+    # C02.g = C10.f: deletion marks are persisted (an index file holding only packs_to_delete entries is still written): the
+    # keep-delete window and the recovery of marked packs whose blobs are needed again rest on those entries
+    rep.rule("C02.g", "deletion marks are persisted: Indexer::save writes the file unless both pack lists are empty (= C10.f)")
+    from rules import C10
+    C10.marks_persisted_rule(ctx, rep, "C02.g")
     wiring_rule(ctx, rep, "C02")
     for r, tx in (("C02.a", "typed blob identity in the used set"), ("C02.b", "used-blob walk is total and aborts on error"),
                   ("C02.c", "removal decisions require 'no used blob'"), ("C02.d", "plan/executor agreement per decision"), ("C02.e", "index removal before pack removal")):
